@@ -954,6 +954,13 @@ func requestRules() (dynamic []RuleSpec, real []RuleSpec) {
 		{ID: "words:body-star", In: "vf.transcode.Words", Out: "vf.Rsp", Verb: "POST", Tmpl: "/rw/b", Body: "*"},
 		{ID: "words:vars", In: "vf.transcode.Words", Out: "vf.Rsp", Verb: "GET", Tmpl: "/rw/v/{key}/{fields}/{alt}/{sub.id}"},
 		{ID: "words:vars+body-sub", In: "vf.transcode.Words", Out: "vf.Rsp", Verb: "PUT", Tmpl: "/rw/s/{callback}/{pretty_print}", Body: "sub"},
+		// variables bound to members of a oneof (typed, nested)
+		vfRule("vf:var-oneof-typed+body-star", "POST", "/po/{on}", "*"),
+		vfRule("vf:var-oneofmsg-nested", "GET", "/pn/{osub.deep.s}/{osub.l}", ""),
+		cxRule("cx:var-oneof-nested+body-star", "POST", "/co/{oneof_nested.string_value}", "*"),
+		cxRule("cx:var-oneof-nested-typed", "GET", "/cn/{oneof_nested.int32_value}/{oneof_nested.enum_value}", ""),
+		cxRule("cx:var-oneof-typed+body-star", "PUT", "/cm/{oneof_int32_value}", "*"),
+		cxRule("cx:var-oneof-bool", "GET", "/ck/{oneof_bool_value}", ""),
 		// variables followed by a trailing ** (bare and as a variable)
 		vfRule("vf:var-then-starstar", "GET", "/pz/{a}/tail/**", ""),
 		vfRule("vf:vars-then-starstar+body-star", "POST", "/py/{a}/{n}/**", "*"),
